@@ -33,8 +33,8 @@ corresponding `fix:` commit lands in /repo:
   noSampler    C28:no-sampler-configured-os-exit, C28:empty-downstream-sampler-os-exit
 (the batch array-header repair has no flag: the request path has no model) -/
 def fixes : Fixes :=
-  { keyFields := false, det := false, intn := false, emaInterval := false, ticker := false,
-    nullElems := false, noSampler := false }
+  { keyFields := true, det := true, intn := true, emaInterval := true, ticker := true,
+    nullElems := true, noSampler := true }
 
 def md : Meta := Refinery.Gen.Nocrash.rulesMeta
 
